@@ -416,7 +416,7 @@ Proof.
       assert (Ee : bpF NF e1 cur = bpF NF e2 cur) by (apply He; exact Pc).
       rewrite Ee.
       destruct (act (nth cur (f_acts fn) 0%Z) (bpF NF e2 cur)); simpl;
-        (split; [apply set_sig_rsig; exact He|split; [exact Se|reflexivity]]).
+        (split; [apply set_bp_rsig_in; [apply set_sig_rsig; exact He|intros _; reflexivity]|split; [exact Se|reflexivity]]).
 Qed.
 
 Opaque rec_node.
